@@ -172,4 +172,54 @@ theorem rightEncode_suffix_free {a b : Bytes} {x y : Nat}
   obtain ⟨h1, h2⟩ := lenPrefixed_prefix_free hx hy h'
   exact ⟨List.reverse_inj.mp h2, leDigits_inj h1⟩
 
+/-! ## the whole preimage -/
+
+/-- The tuple-hash preimage determines the item list and the digest size. -/
+theorem tupleHashPreimage_inj {xs ys : List Bytes} {L L' : Nat}
+    (hx : AllShort xs) (hy : AllShort ys) (hL : L < 2 ^ 64) (hL' : L' < 2 ^ 64)
+    (h : tupleHashPreimage xs L = tupleHashPreimage ys L') : xs = ys ∧ L = L' := by
+  unfold tupleHashPreimage at h
+  obtain ⟨h1, h2⟩ := rightEncode_suffix_free (digits_lt_256 hL) (digits_lt_256 hL') h
+  exact ⟨concatEncoded_inj hx hy h1, by omega⟩
+
+theorem suiteItems_inj {tag tag' : Bytes} {oids oids' ctx ctx' : List Bytes}
+    (hlen : ctx.length = ctx'.length)
+    (h : suiteTupleItems tag oids ctx = suiteTupleItems tag' oids' ctx') :
+    tag = tag' ∧ oids = oids' ∧ ctx = ctx' := by
+  simp only [suiteTupleItems, List.cons.injEq] at h
+  have := List.append_inj' h.2 hlen
+  exact ⟨h.1, this.1, this.2⟩
+
+theorem suiteItems_short {tag : Bytes} {oids ctx : List Bytes}
+    (ht : Short tag) (ho : AllShort oids) (hc : AllShort ctx) :
+    AllShort (suiteTupleItems tag oids ctx) :=
+  allShort_cons.mpr ⟨ht, allShort_append.mpr ⟨ho, hc⟩⟩
+
+/-- `CipherSuiteExt::tuple_hash(tag, ctx)` preimages with contexts of the same arity determine
+the tag, the suite OIDs, every context item and the digest size. -/
+theorem suiteTuplePreimage_inj {tag tag' : Bytes} {oids oids' ctx ctx' : List Bytes} {L L' : Nat}
+    (ht : Short tag) (ht' : Short tag') (ho : AllShort oids) (ho' : AllShort oids')
+    (hc : AllShort ctx) (hc' : AllShort ctx') (hL : L < 2 ^ 64) (hL' : L' < 2 ^ 64)
+    (hlen : ctx.length = ctx'.length)
+    (h : suiteTuplePreimage tag oids ctx L = suiteTuplePreimage tag' oids' ctx' L') :
+    tag = tag' ∧ oids = oids' ∧ ctx = ctx' ∧ L = L' := by
+  unfold suiteTuplePreimage at h
+  obtain ⟨hi, hl⟩ := tupleHashPreimage_inj (suiteItems_short ht ho hc) (suiteItems_short ht' ho' hc') hL hL' h
+  obtain ⟨h1, h2, h3⟩ := suiteItems_inj hlen hi
+  exact ⟨h1, h2, h3, hl⟩
+
+theorem map_eq_on {α β : Type} {f g : α → β} {l : List α} (h : l.map f = l.map g) :
+    ∀ x ∈ l, f x = g x := by
+  induction l with
+  | nil => intro x hx; cases hx
+  | cons a l ih =>
+    simp only [List.map_cons, List.cons.injEq] at h
+    intro x hx
+    rcases List.mem_cons.mp hx with rfl | hx
+    · exact h.1
+    · exact ih h.2 x hx
+
+theorem short_of_length_le {s : Bytes} {n : Nat} (h : s.length ≤ n) (hn : n < 2 ^ 64) : Short s := by
+  unfold Short; omega
+
 end AranyaV.Framing
